@@ -434,3 +434,47 @@ func genVal(r *Rng, v reflect.Value, p ValueProfile, depth int) {
 		panic("genVal: unsupported kind " + v.Kind().String())
 	}
 }
+
+// CopyRecSpare deep-copies a record giving every slice spare capacity (as
+// windows into a larger array have): anything that appends to a caller's slice
+// then writes into memory the caller still owns.
+func CopyRecSpare(v interface{}) interface{} {
+	src := reflect.ValueOf(v)
+	dst := reflect.New(src.Type()).Elem()
+	copySpare(src, dst)
+	return dst.Interface()
+}
+
+func copySpare(src, dst reflect.Value) {
+	switch src.Kind() {
+	case reflect.Ptr:
+		if src.IsNil() {
+			return
+		}
+		p := reflect.New(src.Type().Elem())
+		copySpare(src.Elem(), p.Elem())
+		dst.Set(p)
+	case reflect.Slice:
+		if src.IsNil() {
+			return
+		}
+		s := reflect.MakeSlice(src.Type(), src.Len(), src.Len()+8)
+		for i := 0; i < src.Len(); i++ {
+			copySpare(src.Index(i), s.Index(i))
+		}
+		dst.Set(s)
+	case reflect.Struct:
+		for i := 0; i < src.NumField(); i++ {
+			if src.Type().Field(i).PkgPath != "" {
+				continue
+			}
+			copySpare(src.Field(i), dst.Field(i))
+		}
+	default:
+		dst.Set(src)
+	}
+}
+
+// SetOpVal replaces the decoded record of an add op (used by harness phases
+// that share record values between instances).
+func (o *Op) SetVal(v interface{}) { o.val = v }
